@@ -1221,7 +1221,7 @@ def run(ctx):
              "within 2^-36).  non-trivial = at least one flagged and one unflagged sample; distinct by content",
         samples=samples, evaluations=len(cases) + len(long_cases), distinct_nontrivial=len(nontrivial),
         extra={"input_distribution": dist, "exhaustive": False},
-        assumptions=["NaN voltages are outside the domain",
+        assumptions=["NaN samples / NaN ranges follow IEEE (every comparison false) and are part of the correspondence",
                      "fs and v_per_sec are Python scalars (a NumPy float64 scalar fs would promote float32 data)",
                      "'exceeds the slew limit' is read as the source reads it: >= (non-strict)",
                      "'taper half-width' is read as M/2 samples"])
